@@ -83,7 +83,7 @@ func runRebits(p *Plan, tape *simrt.Tape, opt RunOpt) *RunOut {
 			if p.XS["crash_kind"] != "" {
 				// site-directed crash point (witnesses of known findings): robust
 				// against unrelated changes in the number of earlier operations
-				match = rec.Kind.String() == p.XS["crash_kind"] && strings.Contains(rec.Path, p.XS["crash_path_contains"]) && strings.HasSuffix(rec.Path, p.XS["crash_path_suffix"])
+				match = rec.Kind.String() == p.XS["crash_kind"] && strings.Contains(rec.Path, p.XS["crash_path_contains"]) && strings.HasSuffix(rec.Path, p.XS["crash_path_suffix"]) && (p.XS["crash_path_excludes"] == "" || !strings.Contains(rec.Path, p.XS["crash_path_excludes"]))
 			}
 			if match && hit == nil {
 				hit = &crashCand{mut: rec.Mut, rec: *rec}
